@@ -39,6 +39,20 @@ pub fn gen_bytes_string(t: &mut Tape, sw: &NSwarm) -> Vec<u8> {
         v[0] = b'A' + t.draw(26) as u8;
         return v;
     }
+    if sw.utf8 && t.chance(1, 25) {
+        // kilobytes of multi-byte text with a varying phase, so that 512-byte .. 16 KiB buffer boundaries fall inside
+        // characters of a single string record
+        let pad = t.draw(4);
+        let n = t.range(300, 6000);
+        let mut s = String::new();
+        for _ in 0..pad {
+            s.push('p');
+        }
+        for i in 0..n {
+            s.push(['é', '日', '😀', 'ß', '本', '€'][((i + pad) % 6) as usize]);
+        }
+        return s.into_bytes();
+    }
     let len = match cat {
         0 | 1 => 0,
         2 | 3 => 1,
